@@ -597,6 +597,161 @@ pub fn run_prop<P: Prop>(p: P, tier: Tier, seed: u64, replay: Option<PathBuf>) -
     exit
 }
 
+// ---------------------------------------------------------------------------------------------
+// Coverage-guided bridge (thorough tier).  libFuzzer hands over a byte string; it is used as the
+// *entropy stream* of the property's own proptest strategy (proptest's PassThrough RNG: the bytes
+// are consumed in order, zeros once they run out), so every generated case lies in the same sound
+// domain as in the random tiers and is judged by the same oracle.  libFuzzer's coverage feedback
+// (edge coverage of the signer crates) decides which entropy strings are kept and mutated.
+
+const FUZZ_TAIL: usize = 1 << 19;
+
+/// Per-process accumulator of the fuzz phase (written to VERIF_FUZZ_STATS periodically and at exit).
+pub struct FuzzAgg {
+    agg: Agg,
+    rejected: u64,
+    harness_errors: u64,
+    execs: u64,
+}
+
+pub enum FuzzOutcome {
+    /// the strategy rejected this entropy string (filters) - nothing was executed
+    Rejected,
+    Held,
+    /// the oracle fired with a signature that is not a listed known finding; the case was written
+    /// to this replay file
+    Violation(PathBuf, Violation),
+    Harness(String),
+}
+
+pub struct Fuzzer<P: Prop> {
+    p: P,
+    ctx: Ctx,
+    strat: SingleThread<BoxedStrategy<P::Case>>,
+    stats: Mutex<FuzzAgg>,
+}
+
+/// libFuzzer calls the target from one thread only; a boxed proptest strategy is not `Sync`.
+struct SingleThread<T>(T);
+unsafe impl<T> Send for SingleThread<T> {}
+unsafe impl<T> Sync for SingleThread<T> {}
+
+impl<P: Prop> Fuzzer<P> {
+    pub fn new(p: P) -> Self {
+        let id = p.id();
+        let seed: u64 = std::env::var("VERIF_SEED").ok().and_then(|s| s.parse().ok()).unwrap_or(1);
+        let ctx = Ctx { id, tier: Tier::Thorough, seed, known: Known::load(), strict: false, list_all: false };
+        let strat = p.strategy(Tier::Thorough);
+        Fuzzer { p, ctx, strat: SingleThread(strat), stats: Mutex::new(FuzzAgg { agg: Agg::default(), rejected: 0, harness_errors: 0, execs: 0 }) }
+    }
+
+    pub fn one(&self, data: &[u8]) -> FuzzOutcome {
+        use proptest::test_runner::{RngAlgorithm, TestRng};
+        // The pass-through stream answers with zeros once it runs out, and rand's uniform integer
+        // sampling rejects a zero word for every range that is not a power of two: an all-zero
+        // tail would spin forever.  The fuzzer's bytes are therefore followed by a long
+        // pseudo-random tail that is a pure function of those bytes.
+        let mut buf = Vec::with_capacity(data.len() + FUZZ_TAIL);
+        buf.extend_from_slice(data);
+        let mut x = hash_of(&data) | 1;
+        while buf.len() < data.len() + FUZZ_TAIL {
+            x ^= x << 13;
+            x ^= x >> 7;
+            x ^= x << 17;
+            buf.extend_from_slice(&x.to_le_bytes());
+        }
+        let rng = TestRng::from_seed(RngAlgorithm::PassThrough, &buf);
+        let cfg = Config { failure_persistence: None, max_local_rejects: 256, max_global_rejects: 256, ..Config::default() };
+        let mut runner = TestRunner::new_with_rng(cfg, rng);
+        let tree = match self.strat.0.new_tree(&mut runner) {
+            Ok(t) => t,
+            Err(_) => {
+                let mut g = self.stats.lock().unwrap();
+                g.rejected += 1;
+                g.execs += 1;
+                return FuzzOutcome::Rejected;
+            }
+        };
+        let case = tree.current();
+        let out = match run_case(&self.p, &case, &self.ctx) {
+            Ok((mut st, Ok(()))) => {
+                let mut g = self.stats.lock().unwrap();
+                if g.execs % 997 != 0 {
+                    st.sample = None;
+                }
+                g.agg.merge_case(st);
+                FuzzOutcome::Held
+            }
+            Ok((_st, Err(v))) => {
+                let dir = out_dir().join("replays").join(self.ctx.id);
+                let name = format!("violation-fuzz-seed{}-{:016x}.json", self.ctx.seed, hash_of(&v.sig));
+                let path = dir.join(name);
+                write_json(
+                    &path,
+                    &json!({ "property": self.ctx.id, "signature": v.sig, "message": v.msg, "seed": self.ctx.seed,
+                             "tier": "thorough-fuzz", "case": serde_json::to_value(&case).unwrap() }),
+                );
+                FuzzOutcome::Violation(path, v)
+            }
+            Err(e) => {
+                self.stats.lock().unwrap().harness_errors += 1;
+                FuzzOutcome::Harness(e)
+            }
+        };
+        let mut g = self.stats.lock().unwrap();
+        g.execs += 1;
+        if g.execs % 500 == 0 {
+            Self::dump(&g);
+        }
+        out
+    }
+
+    fn dump(g: &FuzzAgg) {
+        // one file per worker process
+        let Ok(path) = std::env::var("VERIF_FUZZ_STATS").map(|p| format!("{}.{}", p, std::process::id())) else { return };
+        let mut samples: Vec<Value> = g.agg.samples_nt.iter().take(3).cloned().collect();
+        samples.extend(g.agg.samples.iter().take(1).cloned());
+        let v = json!({
+            "executions": g.execs,
+            "cases_run": g.agg.evaluations,
+            "rejected_by_strategy": g.rejected,
+            "harness_errors": g.harness_errors,
+            "distinct_nontrivial": g.agg.nontrivial.len(),
+            "nontrivial_hashes": g.agg.nontrivial.iter().map(|h| format!("{:016x}", h)).collect::<Vec<_>>(),
+            "classes": g.agg.classes,
+            "known_findings_hit": g.agg.known,
+            "samples": samples,
+        });
+        let tmp = format!("{}.tmp", path);
+        if std::fs::write(&tmp, serde_json::to_vec(&v).unwrap()).is_ok() {
+            let _ = std::fs::rename(&tmp, &path);
+        }
+    }
+
+    pub fn dump_now(&self) {
+        Self::dump(&self.stats.lock().unwrap());
+    }
+}
+
+/// Type-erased handle used by the fuzz target binary.
+pub trait FuzzDyn: Send + Sync {
+    fn one(&self, data: &[u8]) -> FuzzOutcome;
+    fn dump_now(&self);
+    fn id(&self) -> &'static str;
+}
+
+impl<P: Prop> FuzzDyn for Fuzzer<P> {
+    fn one(&self, data: &[u8]) -> FuzzOutcome {
+        Fuzzer::one(self, data)
+    }
+    fn dump_now(&self) {
+        Fuzzer::dump_now(self)
+    }
+    fn id(&self) -> &'static str {
+        self.ctx.id
+    }
+}
+
 /// Monotone index mapping for shrink-friendly selectors: maps a u16 selector onto 0..len.
 pub fn pick_idx(sel: u16, len: usize) -> usize {
     if len == 0 {
